@@ -78,6 +78,13 @@ def make_file(rng, kind_, path):
             if n["k"] == "sec":
                 n["repository"] = None
         spec["repository"] = None
+        if rng.random() < 0.35 and spec["sections"] and not any(p_["name"] == "ions" for p_ in spec["sections"][0]["properties"]):
+            # values that begin / end with a bracket inside a list of values (concentrations, intervals)
+            spec["sections"][0]["properties"].append(
+                {"k": "prop", "id": gen.new_id(rng), "name": "ions", "dtype": "string",
+                 "values": rng.choice([["[Ca2+]", "[Mg2+]"], ["[0 255]", "open)", "(1 2]"], ["x", "[[nested]]"]]),
+                 "unit": None, "uncertainty": None, "reference": None, "definition": None, "dependency": None,
+                 "dependency_value": None, "value_origin": None, "val_cardinality": None})
         try:
             with warnings.catch_warnings():
                 warnings.simplefilter("ignore")
